@@ -28,6 +28,8 @@ def law_group(rng, names, nfresh):
         ("rootpow", [["root", ["pow", x, n], n], x]),
         ("powdist", [["pow", ["mul", x, y], a], ["mul", ["pow", x, a], ["pow", y, a]]]),
         ("divdiv", [["div", ["div", x, y], z], ["div", x, ["mul", y, z]], ["div", ["div", x, z], y]]),
+        # a prefix multiplies from either side
+        ("precomm", (lambda P_: [["pre", P_, x], ["pre", P_, x, "r"]])(rng.choice(G.SI_PREFIXES))),
     ]
     return rng.choice(laws)
 
